@@ -121,7 +121,7 @@ func genC18Case(t *rapid.T) *C18Case {
 		c.Others = append(c.Others, [2]string{fmt.Sprintf("p%d", i), rapid.SampledFrom([]string{"", "1", "abc", "测试"}).Draw(t, "other")})
 	}
 	c.Pos = rapid.IntRange(0, k).Draw(t, "urlPos")
-	b.T = maybeNamedDeep(t, b.T)
+	finishScalar(t, b)
 	if rapid.IntRange(0, 3).Draw(t, "decoy") == 0 {
 		// (tag carrier only) an earlier call on the same struct type with another per-call rule
 		b.Decoy = rapid.SampledFrom([]string{"required", "to=1~3|decoy", "ge=2", "phone|诱饵"}).Draw(t, "decoyRule")
